@@ -503,6 +503,22 @@ pub fn s20_dir_source() -> Scenario
     }
 }
 
+/// S21: file names outside ASCII (and one in a sub-directory whose name is outside ASCII)
+pub fn s21_unicode_names() -> Scenario
+{
+    Scenario
+    {
+        name: "S21-unicode-names".into(),
+        variants: vec![vec![cat_rule("t\u{e4}", &["s\u{f6}"]), cat_rule("d\u{ef}r/\u{fc}", &["t\u{e4}", "s2"])]],
+        edits: vec![(s("s\u{f6}"), xy()), (s("s2"), xy()), (s("d\u{ef}r/.keep"), vec![bytes("")])],
+        goals: g(&["t\u{e4}"]),
+        tamper: sv(&["t\u{e4}"]),
+        ops: OpKinds { edit: true, build: true, clean: true, tamper: true, delete: true, ..Default::default() },
+        nondeterministic: false,
+        flat_variants: vec![],
+    }
+}
+
 /// S17 (C18 only): a two-target rule whose targets are byte-identical twins and read an undeclared
 /// file `k` (deleting `k` makes its command fail), next to a rule whose target can take the same
 /// content as the twins.  Reaches: partial recovery of one twin from an entry another rule's target
@@ -536,7 +552,7 @@ pub fn by_name(name: &str) -> Option<Scenario>
 
 pub fn all_scenarios() -> Vec<Scenario>
 {
-    let mut v = vec![s1_chain(), s1_chain_xyz(), s14_five(), s2_diamond(), s3_multi(), s3_c18(), s4_twins(), s4_c18(), s5_variants(), s6_exec(), s8_failures(), s9_scope(), s10_bundle(), s11_three(), s12_multiline_failure(), s13_binary(), s15_repeated(), s16_big(), s17_c18_failing_twins(), s18_empty(), s19_aside(), s17b_failing_twins3(), s20_dir_source()];
+    let mut v = vec![s1_chain(), s1_chain_xyz(), s14_five(), s2_diamond(), s3_multi(), s3_c18(), s4_twins(), s4_c18(), s5_variants(), s6_exec(), s8_failures(), s9_scope(), s10_bundle(), s11_three(), s12_multiline_failure(), s13_binary(), s15_repeated(), s16_big(), s17_c18_failing_twins(), s18_empty(), s19_aside(), s17b_failing_twins3(), s20_dir_source(), s21_unicode_names()];
     for m in 0..4 { v.push(s7_undeclared(m)); }
     for m in 0..8 { v.push(s7_undeclared3(m)); }
     v.push(s7_preserving());
